@@ -958,7 +958,9 @@ Proof.
     destruct (donna_block_correct (d_r l) 0 (d_h l) buf' Hrok Hhok Hok' Hl' ltac:(auto)) as [Hh' _].
     rewrite (finish_correct _ _ Hh' Hpok).
     pose proof (donna_block_is_step (d_r l) (d_h l) buf' true Hrok Hhok Hok' Hl') as Es. cbn iota in Es.
-    rewrite Es, <- Hr, <- Hh. rewrite Z.mod_mod by (pose proof P1305_pos; lia). reflexivity.
+    assert (Hstep : forall r f h x, poly_block_step r f h x mod P1305 = poly_block_step r f h x)
+      by (intros; unfold poly_block_step; apply Z.mod_mod; pose proof P1305_pos; lia).
+    rewrite Es, <- Hr, <- Hh. rewrite Hstep. reflexivity.
   - rewrite (finish_correct _ _ Hhok Hpok). rewrite Hh. rewrite Z.mod_mod by (pose proof P1305_pos; lia). reflexivity.
 Qed.
 
